@@ -4,6 +4,7 @@ mod c17;
 mod c25;
 mod e2e;
 mod ty;
+mod c27;
 mod lean;
 mod report;
 mod rng;
@@ -53,6 +54,7 @@ fn main() {
             let out = match prop {
                 "C25" => c25::replay(&f["input"]),
                 "C17" => c17::replay(&f["input"]),
+                "C27" => c27::replay(&f["input"]),
                 _ => "replay not implemented for this property".to_string(),
             };
             println!("input: {}\n{}", f["input"], out);
@@ -69,6 +71,7 @@ fn main() {
     let rep = match prop {
         "C25" => c25::run(&tier, seed, widen),
         "C17" => c17::run(&tier, seed, widen),
+        "C27" => c27::run(&tier, seed, widen),
         _ => {
             eprintln!("unknown property {prop}");
             std::process::exit(2);
